@@ -263,7 +263,12 @@ def call_watched(fn_name, desc, arrays, kw, backend=None):
         kw["backend"] = backend
     try:
         with block:
-            r = common.with_alarm(30, fn, desc, *args, **kw)
+            try:
+                r = common.with_alarm(30, fn, desc, *args, **kw)
+            except common.Timeout:
+                # a machine under heavy load is not a hang: once more with a generous limit (values are not compared here)
+                Watched.count = 0
+                r = common.with_alarm(240, fn, desc, *args, **kw)
         return {"outcome": "value", "computations": Watched.count}
     except BaseException as e:  # noqa: BLE001
         msg = str(e)
